@@ -170,6 +170,21 @@ func init() {
 		}
 		return mkInt(64, uint64(v))
 	}
+	vxAPI["vxPrint"] = func(e *Exec, fn *ssa.Function, args []Value) Value {
+		if e.Cfg.Trace || e.Cfg.Params["print"] == 1 {
+			var parts []string
+			for _, b := range bytesOf(e, args[0]) {
+				iv := b.(Int)
+				if iv.T != nil {
+					parts = append(parts, "?")
+				} else {
+					parts = append(parts, string(rune(iv.C)))
+				}
+			}
+			fmt.Println("vxPrint:", strings.Join(parts, ""))
+		}
+		return nil
+	}
 	vxAPI["vxSymbolic"] = func(e *Exec, fn *ssa.Function, args []Value) Value {
 		return Bool{C: true}
 	}
@@ -264,7 +279,11 @@ func (e *Exec) assert(b Bool, msg string) {
 			e.assume(b.T, true)
 			return
 		case smt.Sat:
-			m, _ := e.solveModel(nc)
+			m, mr := e.solveModel(nc)
+			if mr != smt.Sat {
+				e.St.Limits["assertion refuted but no model could be produced: "+msg]++
+				return
+			}
 			e.recordViolation("assert", msg, m)
 		default:
 			e.St.Limits["assertion undecided (solver unknown): "+msg]++
